@@ -81,57 +81,55 @@ Proof.
 Qed.
 Print Assumptions array_lens_exact.
 
-(* ---- which TYPE parameters a field type uses (the `x.full() == path` / `wraps()` tests of derive_struct_diff_struct) ----
-   The helper sees a bare path `n` everywhere in the type EXCEPT directly behind a reference that is not the field type itself: this is
-   known finding D8 (`Option<&'a T>`: T is not counted, the generated enums do not declare it), stated exactly. *)
-Definition self (n: string) (t: g) : bool :=
-  match t with GPath s0 segs _ => String.eqb s0 n && match segs with [] => true | _ => false end | _ => false end.
+(* ---- which TYPE parameters a field type uses (the names_param tests of derive_struct_diff_struct against the type's own path and Type::wraps()) ----
+   Since the repair of D8 / D8b: a parameter is used by a field type exactly when it is the HEAD of some path that occurs anywhere in the type -
+   the type itself, a generic argument, an element of a tuple or array, behind any reference; `T` and `T::Item` both count. *)
+Fixpoint head (n: string) (t: g) : bool :=
+  match t with GPath s0 _ _ => String.eqb s0 n | GRef _ t' => head n t' | _ => false end.
 Fixpoint kids (n: string) (t: g) : bool :=
   match t with
-  | GPath _ _ args => existsb (fun a => self n a || kids n a) args
-  | GRef _ t' => kids n t'                      (* the referent itself is hidden by the `&` prefix of its base string; what it wraps is not *)
-  | GTuple l _ => existsb (fun a => self n a || kids n a) l
-  | GArray t' _ => self n t' || kids n t'
+  | GPath _ _ args => existsb (fun a => head n a || kids n a) args
+  | GRef _ t' => kids n t'
+  | GTuple l _ => existsb (fun a => head n a || kids n a) l
+  | GArray t' _ => head n t' || kids n t'
   | GLt _ | GNever => false
   end.
-Definition own (n: string) (t: g) : bool := match t with GRef _ t' => self n t' | _ => self n t end.
-Definition used_spec (n: string) (t: g) : bool := own n t || self n t || kids n t.
+Definition used_spec (n: string) (t: g) : bool := head n t || kids n t.
 
-Lemma wraps_eq c w rt ao : wraps_list (Ty c w rt ao) = (pr_rt rt ++ pr_cat c) :: match w with Some ws => flat_map wraps_list ws | None => [] end.
+Lemma wraps_eq c w rt ao : wraps_list (Ty c w rt ao) = pr_cat c :: match w with Some ws => flat_map wraps_list ws | None => [] end.
 Proof. reflexivity. Qed.
-Lemma is_name_path n s0 segs : is_kw s0 = false -> is_name n (pr_path (s0 :: segs)) = String.eqb s0 n && match segs with [] => true | _ => false end.
+Lemma is_name_path n s0 segs : is_kw s0 = false -> is_name n (pr_path (s0 :: segs)) = String.eqb s0 n.
 Proof.
-  intros H. cbn [pr_path]. rewrite (kw_nonempty s0 H). cbn [app]. destruct segs as [|s1 r]; cbn [colons flat_map app is_name]; [rewrite andb_true_r; reflexivity|rewrite andb_false_r; reflexivity].
+  intros H. cbn [pr_path]. rewrite (kw_nonempty s0 H). cbn [app]. destruct segs as [|s1 r]; reflexivity.
 Qed.
 Lemma existsb_flat {A} (f: A -> list (list tt)) n (l: list A) : existsb (is_name n) (flat_map f l) = existsb (fun a => existsb (is_name n) (f a)) l.
 Proof. induction l as [|a l IH]; [reflexivity|]. cbn [flat_map existsb]. rewrite existsb_app, IH. reflexivity. Qed.
 
 Definition node_ok (n: string) (t: g) : Prop :=
   match embed t with Ty c w rt ao =>
-    is_name n (pr_rt rt ++ pr_cat c) = self n t /\ is_name n (pr_cat c) = own n t /\
+    is_name n (pr_cat c) = head n t /\
     existsb (is_name n) (match w with Some ws => flat_map wraps_list ws | None => [] end) = kids n t end.
 
 Lemma kids_list n (l: list g) : Forall (fun t => wf t -> node_ok n t) l -> wf_all l ->
-  existsb (is_name n) (flat_map wraps_list (map embed l)) = existsb (fun a => self n a || kids n a) l.
+  existsb (is_name n) (flat_map wraps_list (map embed l)) = existsb (fun a => head n a || kids n a) l.
 Proof.
   intros F W. apply wf_all_Forall in W. rewrite existsb_flat. induction l as [|x l IH]; [reflexivity|].
   inversion F as [|? ? Fx Fl]; subst. inversion W as [|? ? Wx Wl]; subst. cbn [map existsb]. rewrite (IH Fl Wl). f_equal.
-  specialize (Fx Wx). unfold node_ok in Fx. destruct (embed x) as [c w rt ao]. destruct Fx as (A & _ & C). rewrite wraps_eq. cbn [existsb]. rewrite A, C. reflexivity.
+  specialize (Fx Wx). unfold node_ok in Fx. destruct (embed x) as [c w rt ao]. destruct Fx as (A & C). rewrite wraps_eq. cbn [existsb]. rewrite A, C. reflexivity.
 Qed.
 
 Lemma node_ok_all n : forall t, wf t -> node_ok n t.
 Proof.
   induction t as [s0 segs args IH|lt t IH|l tr IH|t len IH|a|] using g_ind2; intros W; unfold node_ok.
-  - cbn in W. destruct W as [Hkw Wa]. fold (wf_all args) in Wa. cbn [embed pr_rt app pr_cat own self]. rewrite (is_name_path n s0 segs Hkw).
-    split; [reflexivity|split; [reflexivity|]]. destruct args as [|a0 args]; [reflexivity|]. cbn [kids]. apply (kids_list n _ IH Wa).
-  - cbn in W. destruct W as [Hb Wt]. specialize (IH Wt). unfold node_ok in IH. cbn [embed]. pose proof (embed_base_rt t Hb) as Hrt.
-    destruct (embed t) as [c w r ao]. subst r. destruct IH as (A & B & C). cbn [pr_rt app] in A.
-    split; [destruct lt; reflexivity|]. split; [cbn [own]; destruct t; try discriminate Hb; cbn [own] in B; exact B || (rewrite A; reflexivity) || exact A|]. exact C.
-  - cbn in W. destruct W as [_ Wl]. fold (wf_all l) in Wl. cbn [embed pr_rt app own self kids].
-    split; [reflexivity|split; [reflexivity|]]. rewrite flat_map_app, existsb_app. rewrite <- (kids_list n _ IH Wl).
+  - cbn in W. destruct W as [Hkw Wa]. fold (wf_all args) in Wa. cbn [embed pr_cat head]. rewrite (is_name_path n s0 segs Hkw).
+    split; [reflexivity|]. destruct args as [|a0 args]; [reflexivity|]. cbn [kids]. apply (kids_list n _ IH Wa).
+  - cbn in W. destruct W as [Hb Wt]. specialize (IH Wt). unfold node_ok in IH. cbn [embed head kids].
+    destruct (embed t) as [c w r ao]. exact IH.
+  - cbn in W. destruct W as [_ Wl]. fold (wf_all l) in Wl. cbn [embed pr_cat head kids is_name].
+    split; [reflexivity|]. rewrite flat_map_app, existsb_app. rewrite <- (kids_list n _ IH Wl).
     destruct (tr || match l with [] => true | _ => false end); cbn; rewrite ?orb_false_r; reflexivity.
-  - cbn in W. destruct W as [Wt Hlen]. specialize (IH Wt). unfold node_ok in IH. cbn [embed pr_rt app own self kids flat_map].
-    split; [reflexivity|split; [reflexivity|]]. rewrite app_nil_r. destruct (embed t) as [c w r ao]. destruct IH as (A & _ & C).
+  - cbn in W. destruct W as [Wt Hlen]. specialize (IH Wt). unfold node_ok in IH. cbn [embed pr_cat head kids flat_map is_name].
+    split; [reflexivity|]. rewrite app_nil_r. destruct (embed t) as [c w r ao]. destruct IH as (A & C).
     rewrite wraps_eq. cbn [existsb]. rewrite A, C. reflexivity.
   - repeat split; reflexivity.
   - repeat split; reflexivity.
@@ -140,11 +138,15 @@ Qed.
 Theorem param_used_exact : forall n t, wf t -> param_used n (embed t) = used_spec n t.
 Proof.
   intros n t W. pose proof (node_ok_all n t W) as H. unfold node_ok in H. unfold param_used, used_spec. destruct (embed t) as [c w rt ao].
-  destruct H as (A & B & C). rewrite wraps_eq. cbn [existsb]. rewrite A, B, C. rewrite orb_assoc. reflexivity.
+  destruct H as (A & C). rewrite wraps_eq. cbn [existsb]. rewrite A, C. destruct (head n t); reflexivity.
 Qed.
-(* known finding D8, exactly: a parameter directly behind a reference inside another type is not seen *)
-Example param_behind_reference_not_seen :
-  let t := GPath "Option" [] [GRef (Some "a") (GPath "T" [] [])] in wf t /\ param_used "T" (embed t) = false
-  /\ param_used "T" (embed (GRef (Some "a") (GPath "T" [] []))) = true /\ param_used "T" (embed (GPath "Vec" [] [GTuple [GPath "T" [] []; GPath "u8" [] []] false])) = true.
+(* the code as it was (known finding D8, repaired): the names carried the reference prefix, so a parameter directly behind a reference inside
+   another type was not seen, nor one used only as the head of a longer path *)
+Example param_behind_reference_seen :
+  wf (GPath "Option" [] [GRef (Some "a") (GPath "T" [] [])]) /\
+  (param_used "T" (embed (GPath "Option" [] [GRef (Some "a") (GPath "T" [] [])])) = true) /\
+  (param_used "T" (embed (GPath "T" ["Item"] [])) = true) /\
+  (param_used "T" (embed (GPath "Vec" [] [GTuple [GRef None (GPath "T" [] []); GPath "u8" [] []] false])) = true) /\
+  (param_used "T" (embed (GPath "Tx" [] [GPath "x" ["T"] []])) = false).
 Proof. cbn. repeat split; reflexivity. Qed.
 Print Assumptions param_used_exact.
